@@ -122,11 +122,18 @@ def violations_of(prop: str, sources: Dict[str, str]):
     mod = importlib.import_module("sa.rules.%s" % prop.lower())
     repo = Repo(sources=sources)
     found = []
+    errors = []
     for rule in mod.RULES:
-        rr = rule(repo)
-        rr.check_floor()
+        try:
+            rr = rule(repo)
+            rr.check_floor()
+        except AnalysisError as e:
+            errors.append(str(e))
+            continue
         for i in rr.violations:
             found.append((i.rule, i.file, i.function, i.construct, i.what))
+    if errors and not found:
+        raise AnalysisError("; ".join(errors))
     return found
 
 
